@@ -967,7 +967,13 @@ func c12MapperNeverCreates(p *P, r *R) {
 				// mapping-only step may follow it)
 				sites := 0
 				ok = true
+				if len(findInstrs(f, p.mCall("syscall.Mmap", "golang.org/x/sys/unix.Mmap"))) > 0 || p.may(f, mMapper, 3) {
+					ok = false // not a mere open helper: it maps what it opened, without ever creating the layout
+				}
 				for _, g := range p.fnList {
+					if !ok {
+						break
+					}
 					for _, si := range findInstrs(g, p.mCall(p.fname(f))) {
 						sites++
 						if !p.may(g, mCreator, 3) {
